@@ -27,6 +27,7 @@ FUNCS = {
     "getattr": "SandboxedEnvironment.getattr",
     "getitem": "SandboxedEnvironment.getitem",
     "safecall": "SandboxedEnvironment.is_safe_callable",
+    "immcall": "ImmutableSandboxedEnvironment.is_safe_callable",
     "call": "SandboxedEnvironment.call",
 }
 
@@ -77,6 +78,9 @@ class Fn:
             raise self.bad("unknown name", n)
         if isinstance(n, ast.Attribute) and isinstance(n.value, ast.Name) and n.value.id == "types" and "types" not in self.locals:
             return f"(EGlobal {q('types.' + n.attr)})"
+        if isinstance(n, ast.Attribute) and isinstance(n.ctx, ast.Load) and isinstance(n.value, ast.Name) \
+                and n.value.id in self.locals and n.value.id not in RECEIVERS and n.attr in ("__self__", "__name__"):
+            return f"(EGetattr (EVar {q(n.value.id)}) (EStr {q(n.attr)}))"
         if isinstance(n, ast.Constant):
             if n.value is None:
                 return "ENone"
@@ -562,6 +566,42 @@ Proof.
   - rewrite unwrap_map. reflexivity.
 Qed.
 
+(* ================================================================== ImmutableSandboxedEnvironment.is_safe_callable
+   objects: a bound method T().m of one of the four exact builtin types (a builtin method: no markers), the
+   container it is bound to, or anything that is not a bound method *)
+Inductive icobj := ICMethod (T : btype) (m : string) | ICSelf (T : btype) | ICOther.
+Definition ic_globals (n : string) : pv icobj :=
+  if String.eqb n "types.BuiltinMethodType" then PTy (fun o => match o with ICMethod _ _ => true | _ => false end)
+  else if String.eqb n "types.MethodType" then PTy (fun _ => false)
+  else PNone.
+Definition ic_getattr (o : icobj) (a : string) : outcome (pv icobj) :=
+  match o with
+  | ICMethod T m => if String.eqb a "__self__" then Norm (PObj (ICSelf T))
+                    else if String.eqb a "__name__" then Norm (PStr m) else Exc "AttributeError"
+  | _ => Exc "AttributeError"
+  end.
+Definition ic_call (spec : list row) (f : string) (args : list (pv icobj)) : list noev * outcome (pv icobj) :=
+  if String.eqb f "super().is_safe_callable" then ([], Norm (PBool true))
+  else if String.eqb f "modifies_known_mutable" then
+    match args with
+    | [PObj (ICSelf T); PStr m] => lift_bool (src_mkm spec T m)
+    | _ => ([], Exc "TypeError")
+    end
+  else ([], Exc "NameError").
+Definition src_immcall (spec : list row) (o : icobj) : list noev * outcome (pv icobj) :=
+  run icobj noev ic_globals yes ic_getattr no_getitem (ic_call spec) exn_isa body_immcall
+      [(%(ic_self)s, PNone); (%(ic_obj)s, PObj o)].
+
+Theorem immutable_is_safe_callable_source_eq_model : forall spec T m,
+  src_immcall spec (ICMethod T m) = ([], Norm (PBool (immutable_is_safe_callable spec T m)))
+  /\ src_immcall spec ICOther = ([], Norm (PBool true)).
+Proof.
+  intros spec T m. split; [|reflexivity].
+  unfold src_immcall, body_immcall, immutable_is_safe_callable, run. cbn -[src_mkm].
+  rewrite modifies_known_mutable_source_eq_model. cbn.
+  destruct (modifies_known_mutable spec T m); reflexivity.
+Qed.
+
 Print Assumptions modifies_known_mutable_source_eq_model.
 Print Assumptions is_internal_attribute_source_eq_model.
 Print Assumptions immutable_is_safe_attribute_source_eq_model.
@@ -627,9 +667,9 @@ Proof.
 Qed.'''
 
 
-SECTIONS = ("mkm", "internal", "safe", "imm", "access", "call")
+SECTIONS = ("mkm", "internal", "safe", "imm", "access", "call", "immcall")
 NEEDS = {"mkm": (), "internal": (), "safe": ("internal",), "imm": ("mkm", "internal", "safe"),
-         "access": ("internal", "safe"), "call": ()}
+         "access": ("internal", "safe"), "call": (), "immcall": ("mkm",)}
 THEOREMS = {
     "mkm": ["modifies_known_mutable_source_eq_model"],
     "internal": ["is_internal_attribute_source_eq_model"],
@@ -637,6 +677,7 @@ THEOREMS = {
     "imm": ["immutable_is_safe_attribute_source_eq_model"],
     "access": ["getattr_source_eq_model", "getitem_source_eq_model"],
     "call": ["is_safe_callable_source_eq_model", "call_source_eq_model"],
+    "immcall": ["immutable_is_safe_callable_source_eq_model"],
 }
 
 
@@ -668,13 +709,15 @@ def emit(src_root, want=SECTIONS):
     if t["call"]["kwarg"] is None:
         raise Untranslatable("SandboxedEnvironment.call: no **kwargs parameter")
     d["call_args"], d["call_kwargs"] = q(t["call"]["vararg"]), q(t["call"]["kwarg"])
+    p = expect_params(t, "immcall", 2)
+    d["ic_self"], d["ic_obj"] = map(q, p)
     d["mkm_proof"] = MKM_PROOF % d
     full = COQ % d
     # split the template at its section banners
     banner = "(* =================================================================="
     parts = full.split(banner)
     head, secs = parts[0], parts[1:]
-    order = ["mkm", "internal", "safe", "imm", "access", "call"]
+    order = ["mkm", "internal", "safe", "imm", "access", "call", "immcall"]
     if len(secs) != len(order):
         raise AssertionError("template sections changed")
     need = set()
